@@ -48,6 +48,19 @@ CLAIMED = {
         'Structural necessary conditions of the fault-injection property, '
         'checked on all paths rather than on sampled crash points.',
         'DESIGN.md section 5, C14'),
+    'C17': (
+        'value provenance on symbolic terms (versions of the rebound tree '
+        'variable), dominance guard with sibling cross-check',
+        'Decides: after reduction (drop_level / flatten) only the reduced '
+        'tree reaches marker reconciliation, election and marker '
+        'reporting, the election reads statistics through the tree it was '
+        'given, while back-fill and embedded metadata use the stored '
+        'tree; every pipeline call drop_level(<configured level>) is '
+        'dominated by a membership test in the receiver\'s hierarchy '
+        '(siblings cross-checked); flattening rebinds tree and marker '
+        'table together to the sorted union of all groups. Equality of '
+        'the results of two runs is not decided.',
+        'DESIGN.md section 5, C17'),
     'C19': (
         'interprocedural path-effect analysis seeded from the argschema '
         'declarations, CFG acquire/release pairing with ownership transfer '
